@@ -500,6 +500,14 @@ def opPROLL : P String := do
   let hs ← listOf hist
   pure (aggStrings ((rollPoolW hs).map fun e => (showVals e.1, e.2)))
 
+/-- `PROLLS dice… answers…` : `P.roll()` against an explicit stream of generator answers: the roll
+and the answers left over -/
+def opPROLLS : P String := do
+  let hs ← listOf hist
+  let us ← listOf nat
+  let r := rollPoolS hs us
+  pure ("ok " ++ showVals r.1 ++ " | " ++ " ".intercalate (r.2.map toString))
+
 /-! ### the object population (C15) -/
 
 def heapOp : P HeapOp := do
@@ -671,6 +679,7 @@ def dispatch (op : String) : P String :=
   | "ROLLVALS" => opROLLVALS
   | "PICKALL" => opPICKALL
   | "PROLL" => opPROLL
+  | "PROLLS" => opPROLLS
   | "HEAP" => opHEAP
   | "RNG" => opRNG
   | "GUARD" => opGUARD
